@@ -23,6 +23,7 @@ type HistOpts struct {
 	Boundary      bool // include malformed / boundary inputs (0x values, forged reports, gov list changes by gov ...)
 	GovOps        bool // governance-signed privileged ops (cycle list, params, spec updates, mint init)
 	NoBadValues   bool // never submit values that the known halting defects need (used while a finding is open)
+	Probe         bool // after every block, probe the aggregate getters and record the answers (C08)
 	TieBias       bool // equal-power reporters submitting a few distinct values (equal-weight ties in weighted-mode rounds)
 	Stories       int  // percentage of histories that contain a scripted dispute life cycle
 	ValStatus     bool // SDK-native validator jail / unjail events (validators leave and re-enter the bonded set)
@@ -494,7 +495,11 @@ func (w *World) block(o HistOpts, d time.Duration, scripted ...func()) bool {
 			w.RandomOp(o)
 		}
 	}
-	return w.End()
+	ok := w.End()
+	if ok && o.Probe {
+		w.Probe()
+	}
+	return ok
 }
 
 func (w *World) lastDisputeId() uint64 {
@@ -639,6 +644,9 @@ func (w *World) RunHistory(o HistOpts) {
 		}
 		if !w.End() {
 			break
+		}
+		if o.Probe {
+			w.Probe()
 		}
 	}
 }
